@@ -79,6 +79,14 @@ CLAIMED["C14"] = dict(
     design_ref="§5 C14",
 )
 
+CLAIMED["C04"] = dict(
+    category="fault_enumeration",
+    engine="deviation",
+    technique="exhaustive enumeration of every shipped pure record x reduced-temperature lattice, plus deviation-bounded exploration of the initialisation cascade through injected stage failures",
+    text="Every pure record of the shipped PC-SAFT, SAFT-VR Mie and SAFT-VRQ Mie files is solved on the reduced-temperature lattice (success clause), the equilibrium conditions are recomputed outside the solver, pure(T) and pure(p) are composed, the helper entry points are compared, and with an initial state supplied every prefix of the fallback cascade (given state, ideal gas) is forced to fail through the H3 injection sites so that the later stages really run; phase diagrams are checked for completeness, monotonicity and the critical end point. Solver failures on the pinned tree are listed per (record, T_r window) in known_findings.txt.",
+    design_ref="§5 C04, §4.3",
+)
+
 NOT_YET = "check not built yet (work in progress; see DESIGN.md §9 build order) - not a claim that the technique cannot apply"
 
 ALL = ["C%02d" % i for i in range(1, 21)]
